@@ -873,6 +873,7 @@ theorem C14_rtt_changes_only_by_sys (s : Sys F) (e : Ev) (hnr : e.isReload = fal
   | setCfg cfg => rw [hrun.eq_of_none (fun _ h => h)]; exact .inl (.refl _)
   | crit d => rw [hrun.eq_of_none (fun _ h => h)]; exact .inl (.refl _)
   | failNext cid => rw [hrun.eq_of_none (fun _ h => h)]; exact .inl (.refl _)
+  | failAfter cid kfa => rw [hrun.eq_of_none (fun _ h => h)]; exact .inl (.refl _)
   | failBind cid => rw [hrun.eq_of_none (fun _ h => h)]; exact .inl (.refl _)
   | stamp idx weak ld ccb cct =>
     -- the only operation of a verdict stamp is the neutral `stamp`
